@@ -18,7 +18,8 @@ def configs(ctx):
                     continue
                 m = 2 ** J
                 sizes = [(m, 2 * m), (2 * m, 3 * m), (4 * m, 4 * m)] if ctx.quick else \
-                    [(m, 2 * m), (2 * m, 3 * m), (4 * m, 4 * m), (3 * m, m), (5 * m, 6 * m)]
+                    [(m, 2 * m), (2 * m, 3 * m), (4 * m, 4 * m), (3 * m, m), (5 * m, 6 * m), (7 * m, 2 * m), (m, m),
+                     (6 * m, 9 * m)]
                 for (H, W) in sizes:
                     items.append((mode, 'name', L, L, H, W, J, 1, 2))
         items.append((mode, 'tuple4', 2, 4, 8, 16, 2, 2, 3))
